@@ -2,7 +2,7 @@
 from __future__ import annotations
 
 from sa.cfront import LIB_TUS
-from . import scopes, lib_file, lib_err, lib_py, lib_gatefn, lib_mem
+from . import scopes, lib_file, lib_err, lib_py, lib_gatefn, lib_mem, lib_kind, lib_guards
 
 LEVEL = "other"
 EXPLANATION = ("Every I/O and kastore result is checked and a short read can never pass as a full one; every validation guard of the "
@@ -28,5 +28,10 @@ def run(ctx):
     lib_err.discipline(ctx, P, ["tables", "trees"], funcs=funcs, errprop=E)
     lib_err.module_handlers(ctx, P, E)
     lib_gatefn.treeseq_init(ctx, P)
+    lib_kind.takeset_atomic(ctx, P)
+    # an altered data region is rejected by the validity gate that tskit.load passes: its id guards must be exact
+    gate = {f for f in P.tus["tables"].funcs if f.startswith("tsk_table_collection_check_")}
+    seen = lib_guards.analyse(ctx, P, funcs=gate)
+    lib_guards.presence(ctx, seen, funcs=gate, P=P)
     lib_py.always_raises(ctx, py, "util", "raise_known_file_format_errors")
     lib_mem.c_lints(ctx, ctx.program(), scopes.lib_scope("C10"))
